@@ -88,6 +88,10 @@ func c06Prop(st *CaseStats, fam int) func(t *rapid.T) {
 			cfg.MaxIn = 2
 			depth = rapid.SampledFrom([]int{0, 0, 1}).Draw(t, "depth")
 		}
+		if fam == FamGiant {
+			cfg.MaxIn = 1
+			depth = rapid.SampledFrom([]int{0, 0, 1}).Draw(t, "depthGiant")
+		}
 		c, err := GenCase(t, ctx, sc, cfg, depth, "c")
 		if err != nil {
 			t.Fatalf("%s: %v", sc, err)
@@ -159,4 +163,10 @@ func TestC06ManyFields(t *testing.T) {
 	st := NewStats("C06ManyFields", c06Rule)
 	defer st.Flush()
 	rapid.Check(t, c06Prop(st, FamManyFields))
+}
+
+func TestC06Giant(t *testing.T) {
+	st := NewStats("C06Giant", c06Rule)
+	defer st.Flush()
+	rapid.Check(t, c06Prop(st, FamGiant))
 }
